@@ -43,13 +43,16 @@ pub struct TimeSnapshot {
 
 impl TimeSnapshot {
     pub fn root_dispersion(&self, now: NtpTimestamp) -> NtpDuration {
-        let t = (now - self.root_variance_base_time).to_seconds();
+        // The base time can lie in the future right after the clock was stepped
+        // backwards, the uncertainty does not shrink before the base time.
+        let t = (now - self.root_variance_base_time).to_seconds().max(0.0);
         // Note: dispersion is the standard deviation, so we need a sqrt here.
         NtpDuration::from_seconds(
             (self.root_variance_base
                 + t * self.root_variance_linear
                 + t.powi(2) * self.root_variance_quadratic
                 + t.powi(3) * self.root_variance_cubic)
+                .max(0.0)
                 .sqrt(),
         )
     }
